@@ -19,6 +19,33 @@ def ordering(ex, name):
     return agg(('adt', ORDERING, ex.pdb.variant_index(ORDERING, name)), ())
 
 
+def lex_cmp(ex, a, b):
+    """Ordering of two values under the library's Ord for ints, bools, tuples (lexicographic) and Reverse."""
+    if a[0] == 'ite':
+        return mk_ite(a[1], lex_cmp(ex, a[2], b), lex_cmp(ex, a[3], b))
+    if b[0] == 'ite' and b[2][0] == 'agg':
+        return mk_ite(b[1], lex_cmp(ex, a, b[2]), lex_cmp(ex, a, b[3]))
+    if a[0] == 'agg' and b[0] == 'agg':
+        if a[1][0] == 'adt' and a[1][1] == 'core::cmp::Reverse':
+            return lex_cmp(ex, b[2][0], a[2][0])
+        if a[1][0] == 'tuple':
+            res = ordering(ex, 'Equal')
+            for x, y in reversed(list(zip(a[2], b[2]))):
+                c = lex_cmp(ex, x, y)
+                eq = ordering(ex, 'Equal')
+                # c if c != Equal else res
+                res = map_ite(c, lambda l, res=res: res if l is eq else l)
+            return res
+        raise Uncertified("ordering of %s" % (a[1],))
+    ty = ty_of(a)
+    if ty == 'bool':
+        a, b, ty = mk_cast(a, 'u8'), mk_cast(b, 'u8'), 'u8'
+    if ty not in INT_BITS:
+        raise Uncertified("ordering of %s" % ty)
+    return mk_ite(mk_bin('Lt', a, b, ty, 'bool'), ordering(ex, 'Less'),
+                  mk_ite(mk_bin('Eq', a, b, ty, 'bool'), ordering(ex, 'Equal'), ordering(ex, 'Greater')))
+
+
 def elem_ty_of_slice(ex, st, ref):
     v = ex.load(st, ref)
     if v[0] == 'agg' and v[2]:
@@ -59,10 +86,12 @@ def call_closure(ex, ctx, st, clos, args):
         cref = ex.new_tmp(st, clos)
     if cval[0] == 'fnref':
         # plain function item used as a closure
-        key = cval[1]
-        if not ex.pdb.has_fn(key):
-            raise Uncertified("function item %s used as closure" % key)
-        return ex.call_fn(st, key, list(args), None, ctx['depth'] + 1)
+        key, sty, is_local = cval[1], cval[2], cval[3]
+        if not is_local or not ex.pdb.has_fn(key):
+            # foreign function item: route through the contract models
+            fake = {'def': cval[4], 'resolved': key, 'name': key.split('::')[-1], 'targs': []}
+            return apply(ex, ctx, st, fake, list(args), None, {'line': None, 'dest': {'local': 0, 'proj': [1]}})
+        return ex.call_fn(st, key, list(args), sty, ctx['depth'] + 1)
     if cval[0] != 'agg' or cval[1][0] != 'closure':
         raise Uncertified("closure call on %s" % (cval[0],))
     key = cval[1][1]
@@ -144,6 +173,36 @@ def iter_items(ex, ctx, st, it):
     raise Uncertified("iteration over %s" % (k,))
 
 
+def iter_items_cond(ex, ctx, st, it):
+    """Like iter_items, but also for sources whose length is symbolic (tokens of a string, bounded by
+    ex.max_tokens): -> ([(presence condition, item)], state).  Presence is prefix-closed."""
+    if it[0] == 'ref':
+        it = ex.load(st, it)
+    if it[0] == 'agg' and it[1][0] == 'model':
+        nm = it[1][1]
+        if nm in ('SplitWs', 'SplitAsciiWs'):
+            s_, pos = it[2]
+            bound = ex.max_tokens if ex.max_tokens is not None else 9
+            ex.bounded.append(('tokens', bound))
+            pre = '' if nm == 'SplitWs' else 'ascii_'
+            out = []
+            for k in range(pos[1], bound):
+                out.append((mk_call('has_' + pre + 'token', (s_, C(k, 'usize')), 'bool'), mk_call(pre + 'token', (s_, C(k, 'usize')), 'str')))
+            return out, st
+        if nm == 'Map':
+            inner, st = iter_items_cond(ex, ctx, st, it[2][0])
+            out = []
+            for c, x in inner:
+                r, st = call_closure(ex, ctx, st, it[2][1], [x])
+                out.append((c, r))
+            return out, st
+        if nm in ('Copied', 'Cloned'):
+            inner, st = iter_items_cond(ex, ctx, st, it[2][0])
+            return [(c, ex.load(st, x) if x[0] == 'ref' else x) for c, x in inner], st
+    items, st = iter_items(ex, ctx, st, it)
+    return [(TRUE, x) for x in items], st
+
+
 def fold_bool(ex, ctx, st, items, clos, any_mode):
     acc = FALSE if any_mode else TRUE
     for x in items:
@@ -203,6 +262,56 @@ def apply(ex, ctx, st, f, args, dest_ty, term):
         a, b = args
         ty = ty_of(a)
         return mk_ite(mk_bin('Lt', a, b, ty, 'bool'), C(0, ty), mk_bin('Sub', a, b, ty, ty)), st
+    if int_method('checked_shr') or int_method('checked_shl'):
+        a, b = args
+        ty = ty_of(a)
+        bits = INT_BITS[ty]
+        okc = mk_bin('Lt', b, C(bits, 'u32'), 'u32', 'bool')
+        return mk_ite(okc, option_some(mk_bin('Shr' if name == 'checked_shr' else 'Shl', a, b, ty, ty)), OPTION_NONE), st
+    if int_method('wrapping_shr') or int_method('wrapping_shl'):
+        a, b = args
+        ty = ty_of(a)
+        return mk_bin('Shr' if name == 'wrapping_shr' else 'Shl', a, mk_bin('BitAnd', b, C(INT_BITS[ty] - 1, 'u32'), 'u32', 'u32'), ty, ty), st
+    if int_method('min') or int_method('max'):
+        a, b = args
+        ty = ty_of(a)
+        return (mk_ite(mk_bin('Lt', b, a, ty, 'bool'), a, b) if name == 'max' else mk_ite(mk_bin('Lt', b, a, ty, 'bool'), b, a)), st
+    if path.startswith('core::bool::<impl bool>::then_some'):
+        return mk_ite(args[0], option_some(args[1]), OPTION_NONE), st
+    if path.startswith('core::bool::<impl bool>::then'):
+        r, st = call_closure(ex, ctx, st, args[1], [])
+        return mk_ite(args[0], option_some(r), OPTION_NONE), st
+    # ---- chars
+    if path.startswith('core::char::methods::<impl char>::'):
+        c0 = args[0]
+        while c0[0] == 'ref':
+            c0 = ex.load(st, c0)
+        lower = mk_and(mk_bin('Le', C(ord('a'), 'char'), c0, 'char', 'bool'), mk_bin('Le', c0, C(ord('z'), 'char'), 'char', 'bool'))
+        upper = mk_and(mk_bin('Le', C(ord('A'), 'char'), c0, 'char', 'bool'), mk_bin('Le', c0, C(ord('Z'), 'char'), 'char', 'bool'))
+        digit = mk_and(mk_bin('Le', C(ord('0'), 'char'), c0, 'char', 'bool'), mk_bin('Le', c0, C(ord('9'), 'char'), 'char', 'bool'))
+        if name == 'to_ascii_uppercase':
+            return mk_ite(lower, mk_bin('Sub', c0, C(32, 'char'), 'char', 'char'), c0), st
+        if name == 'to_ascii_lowercase':
+            return mk_ite(upper, mk_bin('Add', c0, C(32, 'char'), 'char', 'char'), c0), st
+        if name == 'eq_ignore_ascii_case':
+            o = args[1]
+            while o[0] == 'ref':
+                o = ex.load(st, o)
+            lo_o = mk_and(mk_bin('Le', C(ord('A'), 'char'), o, 'char', 'bool'), mk_bin('Le', o, C(ord('Z'), 'char'), 'char', 'bool'))
+            la = mk_ite(upper, mk_bin('Add', c0, C(32, 'char'), 'char', 'char'), c0)
+            lb = mk_ite(lo_o, mk_bin('Add', o, C(32, 'char'), 'char', 'char'), o)
+            return mk_bin('Eq', la, lb, 'char', 'bool'), st
+        if name == 'is_ascii_lowercase':
+            return lower, st
+        if name == 'is_ascii_uppercase':
+            return upper, st
+        if name == 'is_ascii_digit':
+            return digit, st
+        if name == 'is_ascii_alphabetic':
+            return mk_or(lower, upper), st
+        if name == 'is_ascii':
+            return mk_bin('Le', c0, C(127, 'char'), 'char', 'bool'), st
+        raise Uncertified("char::%s" % name)
     if int_method('pow'):
         a, b = args
         if a[0] == 'c' and b[0] == 'c':
@@ -237,6 +346,18 @@ def apply(ex, ctx, st, f, args, dest_ty, term):
         o = mk_ite(mk_bin('Lt', a, b, ty, 'bool'), ordering(ex, 'Less'),
                    mk_ite(mk_bin('Eq', a, b, ty, 'bool'), ordering(ex, 'Equal'), ordering(ex, 'Greater')))
         return option_some(o), st
+    if dpath == 'core::cmp::Ord::cmp' and (path.startswith('core::tuple::<impl core::cmp::Ord for') or path.startswith('<core::cmp::Reverse<T> as core::cmp::Ord>')):
+        a = ex.load(st, args[0])
+        b = ex.load(st, args[1])
+        return lex_cmp(ex, a, b), st
+    if dpath == 'core::cmp::PartialOrd::partial_cmp' and (path.startswith('core::tuple::<impl core::cmp::PartialOrd for') or path.startswith('<core::cmp::Reverse<T> as core::cmp::PartialOrd>')):
+        a = ex.load(st, args[0])
+        b = ex.load(st, args[1])
+        return option_some(lex_cmp(ex, a, b)), st
+    if dpath == 'core::cmp::Ord::cmp' and path == 'core::cmp::impls::<impl core::cmp::Ord for bool>::cmp':
+        a = mk_cast(ex.load(st, args[0]), 'u8')
+        b = mk_cast(ex.load(st, args[1]), 'u8')
+        return lex_cmp(ex, a, b), st
     if path == 'core::cmp::Ordering::reverse':
         o = args[0]
         return map_ite(o, lambda l: ordering(ex, {'Less': 'Greater', 'Greater': 'Less', 'Equal': 'Equal'}[pdb.variant_name(ORDERING, l[1][2])])), st
@@ -323,7 +444,17 @@ def apply(ex, ctx, st, f, args, dest_ty, term):
         if a[0] == 'agg':
             raise Uncertified("numeric From of aggregate")
         return mk_cast(a, to), st
-    if dpath in ('core::convert::Into::into', 'core::convert::From::from') and path in ('<T as core::convert::Into<U>>::into', '<T as core::convert::From<T>>::from'):
+    if dpath == 'core::convert::From::from' and path == '<T as core::convert::From<T>>::from':
+        return args[0], st
+    if dpath == 'core::convert::Into::into' and path == '<T as core::convert::Into<U>>::into':
+        targs = [pdb.tys(t) for t in f.get('resolved_targs') or f.get('targs') or []]
+        if len(targs) >= 2 and targs[0] != targs[1]:
+            im = pdb.trait_impl('core::convert::From', targs[1], [targs[0]])
+            if im is not None:
+                return ex.call_fn(st, im['items']['from'], [args[0]], None, ctx['depth'] + 1)
+            if targs[0] in INT_BITS and (targs[1] in INT_BITS or targs[1] in ('f32', 'f64')):
+                return mk_cast(args[0], targs[1]), st
+            raise Uncertified("Into::into from %s to %s" % (targs[0], targs[1]))
         return args[0], st
     if dpath == 'core::iter::IntoIterator::into_iter' and path == '<I as core::iter::IntoIterator>::into_iter':
         return args[0], st
@@ -517,11 +648,53 @@ def apply(ex, ctx, st, f, args, dest_ty, term):
             return OPTION_NONE, st
         return option_some(elems[0] if name == 'first' else elems[-1]), st
     if path == 'core::slice::<impl [T]>::get':
-        elems = slice_elems(ex, st, args[0])
         i = args[1]
+        arr0 = ex.load(st, args[0])
+        if arr0[0] == 'tbl':
+            n_ = arr0[2]
+            if i[0] == 'c':
+                return (option_some(mk('ref', ('val', C(pdb.table(arr0[1])[i[1]], arr0[3])), None)) if i[1] < n_ else OPTION_NONE), st
+            return mk_ite(mk_bin('Lt', i, C(n_, 'usize'), 'usize', 'bool'), option_some(mk('ref', ('val', mk('idx', arr0[1], i, arr0[3])), None)), OPTION_NONE), st
+        elems = slice_elems(ex, st, args[0])
         if i[0] == 'c':
             return (option_some(elems[i[1]]) if i[1] < len(elems) else OPTION_NONE), st
-        raise Uncertified("slice get with symbolic index")
+        if ty_of(i) != 'usize':
+            raise Uncertified("slice get with a range")
+        vals = agg(('array',), [ex.load(st, e) for e in elems])
+        sel = ex.project(vals, i) if elems else UNDEF
+        return mk_ite(mk_bin('Lt', i, C(len(elems), 'usize'), 'usize', 'bool'), option_some(mk('ref', ('val', sel), None)), OPTION_NONE), st
+    if path in ('core::slice::<impl [T]>::split_at_mut', 'core::slice::<impl [T]>::split_at'):
+        base = args[0]
+        k_ = args[1]
+        arr0 = ex.load(st, base)
+        if arr0[0] != 'agg' or k_[0] != 'c' or base[0] != 'ref':
+            raise Uncertified("split_at with symbolic position")
+        n_ = len(arr0[2])
+        ex.obligations.append(Obligation(key, line, 'split_at position in range', C(1 if k_[1] <= n_ else 0, 'bool'), st.gstack, None, tuple(ex.fn_stack)))
+        off = base[2][0] if base[2] is not None else 0
+        return agg(('tuple',), (mk('ref', base[1], (off, k_[1])), mk('ref', base[1], (off + k_[1], max(0, n_ - k_[1])))) ), st
+    if path in ('core::slice::<impl [T]>::copy_from_slice', 'core::slice::<impl [T]>::clone_from_slice'):
+        dst, src = args
+        a_ = ex.load(st, dst)
+        b_ = ex.load(st, src)
+        if a_[0] != 'agg' or b_[0] != 'agg':
+            raise Uncertified("copy_from_slice over %s/%s" % (a_[0], b_[0]))
+        ex.obligations.append(Obligation(key, line, 'copy_from_slice lengths equal', C(1 if len(a_[2]) == len(b_[2]) else 0, 'bool'), st.gstack, None, tuple(ex.fn_stack)))
+        if len(a_[2]) == len(b_[2]):
+            ex.store(st, dst, mk('agg', a_[1], b_[2]))
+        return UNIT, st
+    if path == 'core::slice::<impl [T]>::binary_search_by':
+        arr0 = ex.load(st, args[0])
+        if arr0[0] != 'tbl':
+            raise Uncertified("binary_search_by over a non-table slice")
+        from .sym import atom as _atom
+        el = _atom('$elem', arr0[3])
+        cmpd, st = call_closure(ex, ctx, st, args[1], [mk('ref', ('val', el), None)])
+        R = 'core::result::Result'
+        pdb.adt(R)
+        hit = mk_call('bsearch_by_hit', (mk('tblref', arr0[1]), cmpd), 'bool')
+        pos = mk_call('bsearch_by_pos', (mk('tblref', arr0[1]), cmpd), 'usize')
+        return mk_ite(hit, agg(('adt', R, pdb.variant_index(R, 'Ok')), (pos,)), agg(('adt', R, pdb.variant_index(R, 'Err')), (pos,))), st
     if path == 'core::slice::<impl [T]>::rotate_left' or path == 'core::slice::<impl [T]>::rotate_right':
         arr = ex.load(st, args[0])
         kk = args[1]
@@ -668,11 +841,56 @@ def apply(ex, ctx, st, f, args, dest_ty, term):
         items, st = iter_items(ex, ctx, st, args[0])
         return fold_bool(ex, ctx, st, items, args[1], dpath.endswith('any'))
     if dpath == 'core::iter::Iterator::fold':
-        items, st = iter_items(ex, ctx, st, args[0])
+        citems, st = iter_items_cond(ex, ctx, st, args[0])
         acc = args[1]
-        for x in items:
-            acc, st = call_closure(ex, ctx, st, args[2], [acc, x])
+        ex.reductions.append({'caller': key, 'kind': 'fold', 'init': args[1], 'closure': args[2], 'items': [x for _, x in citems], 'conds': [c for c, _ in citems]})
+        for c, x in citems:
+            nxt, st = call_closure(ex, ctx, st, args[2], [acc, x])
+            acc = nxt if c is TRUE else mk_ite(c, nxt, acc)
+        ex.reductions[-1]['result'] = acc
+        ex.reductions[-1]['ctx'] = dict(ctx)
         return acc, st
+    if dpath == 'core::iter::Iterator::try_fold':
+        items, st = iter_items(ex, ctx, st, args[0])
+        res = option_some(args[1])
+
+        def stepf(l, x):
+            nonlocal st
+            if not (l[0] == 'agg' and l[1][0] == 'adt' and l[1][1] == 'core::option::Option'):
+                raise Uncertified("try_fold over a non-Option accumulator")
+            if l[1][2] == 0:
+                return OPTION_NONE
+            r, st = call_closure(ex, ctx, st, args[2], [l[2][0], x])
+            return r
+        for x in items:
+            res = map_ite(res, lambda l, x=x: stepf(l, x))
+        return res, st
+    if dpath == 'core::iter::Iterator::find':
+        items, st = iter_items(ex, ctx, st, args[0])
+        res = OPTION_NONE
+        for x in reversed(items):
+            rx = ex.new_tmp(st, x)
+            r, st = call_closure(ex, ctx, st, args[1], [rx])
+            res = mk_ite(r, option_some(x), res)
+        return res, st
+    if dpath in ('core::iter::Iterator::min_by_key', 'core::iter::Iterator::max_by_key'):
+        items, st = iter_items(ex, ctx, st, args[0])
+        if not items:
+            return OPTION_NONE, st
+        keys = []
+        for x in items:
+            rx = ex.new_tmp(st, x)
+            kx, st = call_closure(ex, ctx, st, args[1], [rx])
+            keys.append(kx)
+        ty = ty_of(keys[0])
+        if ty not in INT_BITS:
+            raise Uncertified("min_by_key with non-integer key")
+        best, bk = items[0], keys[0]
+        for x, kx in zip(items[1:], keys[1:]):
+            c = mk_bin('Lt', kx, bk, ty, 'bool') if name == 'min_by_key' else mk_bin('Ge', kx, bk, ty, 'bool')
+            best = mk_ite(c, x, best)
+            bk = mk_ite(c, kx, bk)
+        return option_some(best), st
     if dpath == 'core::iter::Iterator::for_each':
         items, st = iter_items(ex, ctx, st, args[0])
         for x in items:
@@ -813,10 +1031,11 @@ def default_value(ex, t):
     if k == 'float':
         return C(0.0, t['s'])
     if k == 'array':
-        if t['len'] is None:
-            raise Uncertified("default of array with unknown length")
+        n_ = t['len']
+        if n_ is None:
+            n_ = ex.const_param(t.get('len_name'))
         e = default_value(ex, ex.pdb.ty(t['elem']))
-        return agg(('array',), [e] * t['len'])
+        return agg(('array',), [e] * n_)
     if k == 'tuple':
         return agg(('tuple',), [default_value(ex, ex.pdb.ty(e)) for e in t['elems']])
     if k == 'adt':
